@@ -40,378 +40,6 @@ end LuaHelper.TextProofs
 namespace LuaHelper.TextProofs
 open LuaHelper.Text LuaHelper.Lsp LuaHelper.TextFindings
 
-/-- target position seen from the model's running `(line, col)` when the spec still has to skip
-    `l` lines and `c` units -/
-def target (line col l c : Nat) : Pos := ⟨line + l, if l = 0 then col + c else c⟩
-
-/-- one model step over a non-newline first byte whose character is `n` bytes long -/
-theorem scan1_step (p : Pos) (a : UInt8) (tl : Bytes) (line col off : Nat)
-    (hne : ¬ (line = p.line ∧ col = p.ch))
-    (hnb : ¬ ((line = p.line ∧ col > p.ch) ∨ line > p.line)) (h10 : a ≠ 10) :
-    scan1 p (a :: tl) line col off = scan1 p (tl.drop (stepLen a - 1)) line (col + 1) (off + stepLen a) := by
-  rw [scan1]; simp only [hne, hnb, h10, if_false]
-
-theorem scan1_step_lf (p : Pos) (tl : Bytes) (line col off : Nat)
-    (hne : ¬ (line = p.line ∧ col = p.ch))
-    (hnb : ¬ ((line = p.line ∧ col > p.ch) ∨ line > p.line)) :
-    scan1 p (10 :: tl) line col off = scan1 p tl (line + 1) 0 (off + 1) := by
-  rw [scan1]; simp only [hne, hnb, if_false]
-  have : stepLen 10 = 1 := by decide
-  simp [this]
-
-theorem scan1_hit (p : Pos) (rest : Bytes) (line col off : Nat)
-    (h : line = p.line ∧ col = p.ch) : scan1 p rest line col off = some off := by
-  cases rest with
-  | nil => rw [scan1]; simp [h]
-  | cons a tl => rw [scan1]; simp [h]
-
-theorem scan1_spec (cs : List Ch) (hwf : ∀ x ∈ cs, x.wf) :
-    ∀ (l c line col off : Nat), bad cs l c = false →
-      scan1 (target line col l c) (encode cs) line col off = specOffsetCh cs l c off := by
-  induction cs with
-  | nil =>
-    intro l c line col off hb
-    simp [bad] at hb
-    obtain ⟨hl, hc⟩ := hb
-    subst hl; subst hc
-    simp [encode, specOffsetCh, target, scan1]
-  | cons x xs ih =>
-    have hwfx : x.wf := hwf x (by simp)
-    have ih := ih (fun y hy => hwf y (by simp [hy]))
-    intro l c line col off hb
-    rw [encode_cons]
-    cases l with
-    | zero =>
-      by_cases heol : x.isEol = true
-      · -- position at the line end: c must be 0
-        simp [bad, heol] at hb
-        subst hb
-        rw [scan1_hit _ _ _ _ _ (by simp [target])]
-        simp [specOffsetCh, heol]
-      · by_cases hc0 : c = 0
-        · subst hc0
-          rw [scan1_hit _ _ _ _ _ (by simp [target])]
-          simp [specOffsetCh, heol]
-        · simp [bad, heol, hc0] at hb
-          obtain ⟨hcu, hu2, hbad⟩ := hb
-          have hne : ¬ (line = (target line col 0 c).line ∧ col = (target line col 0 c).ch) := by
-            simp [target]; omega
-          have hnb : ¬ ((line = (target line col 0 c).line ∧ col > (target line col 0 c).ch) ∨ line > (target line col 0 c).line) := by
-            simp [target]
-          cases x with
-          | ascii b =>
-            obtain ⟨h1, h2, _⟩ := hwfx
-            simp only [Ch.bytes, List.cons_append, List.nil_append]
-            rw [scan1_step _ _ _ _ _ _ hne hnb h2, stepLen_ascii b h1]
-            have := ih 0 (c - 1) line (col + 1) (off + 1) (by simpa [Ch.units] using hbad)
-            simp only [target] at this ⊢
-            simp only [List.drop_zero, Nat.sub_self]
-            rw [show col + c = col + 1 + (c - 1) by omega]
-            simpa [specOffsetCh, heol, hc0, Ch.units, Ch.bytes, show ¬ c < 1 by omega] using this
-          | two a b =>
-            obtain ⟨h1, h2⟩ := hwfx
-            simp only [Ch.bytes, List.cons_append, List.nil_append]
-            rw [scan1_step _ _ _ _ _ _ hne hnb (ne10_of_ge a (by
-              simp only [UInt8.le_iff_toNat_le] at *; simp at *; omega)), stepLen_two a h1 h2]
-            have := ih 0 (c - 1) line (col + 1) (off + 2) (by simpa [Ch.units] using hbad)
-            simp only [target] at this ⊢
-            rw [show col + c = col + 1 + (c - 1) by omega]
-            simpa [specOffsetCh, heol, hc0, Ch.units, Ch.bytes, show ¬ c < 1 by omega] using this
-          | three a b d =>
-            obtain ⟨h1, h2⟩ := hwfx
-            simp only [Ch.bytes, List.cons_append, List.nil_append]
-            rw [scan1_step _ _ _ _ _ _ hne hnb (ne10_of_ge a (by
-              simp only [UInt8.le_iff_toNat_le] at *; simp at *; omega)), stepLen_three a h1 h2]
-            have := ih 0 (c - 1) line (col + 1) (off + 3) (by simpa [Ch.units] using hbad)
-            simp only [target] at this ⊢
-            rw [show col + c = col + 1 + (c - 1) by omega]
-            simpa [specOffsetCh, heol, hc0, Ch.units, Ch.bytes, show ¬ c < 1 by omega] using this
-          | four a b d e => simp [Ch.units] at hu2
-          | lf => simp [Ch.isEol] at heol
-          | crlf => simp [Ch.isEol] at heol
-          | cr => simp [Ch.isEol] at heol
-    | succ l =>
-      have hne : ¬ (line = (target line col (l + 1) c).line ∧ col = (target line col (l + 1) c).ch) := by
-        simp [target]
-      have hnb : ¬ ((line = (target line col (l + 1) c).line ∧ col > (target line col (l + 1) c).ch) ∨ line > (target line col (l + 1) c).line) := by
-        simp [target]
-      have htgt : ∀ col', target line col (l + 1) c = target line col' (l + 1) c := by
-        intro col'; simp [target]
-      have htgt2 : target line col (l + 1) c = target (line + 1) 0 l c := by
-        simp only [target, Pos.mk.injEq]; constructor
-        · omega
-        · by_cases hl : l = 0 <;> simp [hl]
-      cases x with
-      | ascii b =>
-        obtain ⟨h1, h2, _⟩ := hwfx
-        simp only [Ch.bytes, List.cons_append, List.nil_append]
-        rw [scan1_step _ _ _ _ _ _ hne hnb h2, stepLen_ascii b h1]
-        have := ih (l + 1) c line (col + 1) (off + 1) (by simpa [bad, Ch.isEol] using hb)
-        rw [htgt (col + 1)]
-        simpa [specOffsetCh, Ch.isEol, Ch.bytes] using this
-      | two a b =>
-        obtain ⟨h1, h2⟩ := hwfx
-        simp only [Ch.bytes, List.cons_append, List.nil_append]
-        rw [scan1_step _ _ _ _ _ _ hne hnb (ne10_of_ge a (by
-          simp only [UInt8.le_iff_toNat_le] at *; simp at *; omega)), stepLen_two a h1 h2]
-        have := ih (l + 1) c line (col + 1) (off + 2) (by simpa [bad, Ch.isEol] using hb)
-        rw [htgt (col + 1)]
-        simpa [specOffsetCh, Ch.isEol, Ch.bytes] using this
-      | three a b d =>
-        obtain ⟨h1, h2⟩ := hwfx
-        simp only [Ch.bytes, List.cons_append, List.nil_append]
-        rw [scan1_step _ _ _ _ _ _ hne hnb (ne10_of_ge a (by
-          simp only [UInt8.le_iff_toNat_le] at *; simp at *; omega)), stepLen_three a h1 h2]
-        have := ih (l + 1) c line (col + 1) (off + 3) (by simpa [bad, Ch.isEol] using hb)
-        rw [htgt (col + 1)]
-        simpa [specOffsetCh, Ch.isEol, Ch.bytes] using this
-      | four a b d e =>
-        obtain ⟨h1, h2⟩ := hwfx
-        simp only [Ch.bytes, List.cons_append, List.nil_append]
-        rw [scan1_step _ _ _ _ _ _ hne hnb (ne10_of_ge a (by
-          simp only [UInt8.le_iff_toNat_le] at *; simp at *; omega)), stepLen_four a h1 h2]
-        have := ih (l + 1) c line (col + 1) (off + 4) (by simpa [bad, Ch.isEol] using hb)
-        rw [htgt (col + 1)]
-        simpa [specOffsetCh, Ch.isEol, Ch.bytes] using this
-      | lf =>
-        simp only [Ch.bytes, List.cons_append, List.nil_append]
-        rw [scan1_step_lf _ _ _ _ _ hne hnb]
-        have := ih l c (line + 1) 0 (off + 1) (by simpa [bad, Ch.isEol] using hb)
-        rw [htgt2]
-        simpa [specOffsetCh, Ch.isEol, Ch.bytes] using this
-      | crlf =>
-        simp only [Ch.bytes, List.cons_append, List.nil_append]
-        rw [scan1_step _ _ _ _ _ _ hne hnb (by decide), show stepLen 13 = 1 by decide]
-        simp only [List.drop_zero, Nat.sub_self]
-        rw [htgt (col + 1)]
-        have hne' : ¬ (line = (target line (col + 1) (l + 1) c).line ∧ col + 1 = (target line (col + 1) (l + 1) c).ch) := by
-          simp [target]
-        have hnb' : ¬ ((line = (target line (col + 1) (l + 1) c).line ∧ col + 1 > (target line (col + 1) (l + 1) c).ch) ∨ line > (target line (col + 1) (l + 1) c).line) := by
-          simp [target]
-        rw [scan1_step_lf _ _ _ _ _ hne' hnb']
-        have := ih l c (line + 1) 0 (off + 2) (by simpa [bad, Ch.isEol] using hb)
-        rw [← htgt (col + 1), htgt2]
-        simpa [specOffsetCh, Ch.isEol, Ch.bytes] using this
-      | cr => simp [bad] at hb
-
-end LuaHelper.TextProofs
-
-namespace LuaHelper.TextProofs
-open LuaHelper.Text LuaHelper.Lsp LuaHelper.TextFindings
-
-/-! ### the two-position scan -/
-
-theorem scan_switch (sp ep : Pos) (rest : Bytes) (line col off : Nat)
-    (h : line = sp.line ∧ col = sp.ch) :
-    scan sp ep rest line col off none = scan sp ep rest line col off (some off) := by
-  cases rest with
-  | nil =>
-    obtain ⟨h1, h2⟩ := h
-    rw [scan, scan]; simp [finish, h1, h2]
-  | cons a tl => rw [scan, scan]; simp [h]
-
-theorem scan_found (ep : Pos) (rest : Bytes) :
-    ∀ (line col off : Nat) (sp : Pos) (s : Nat), scan sp ep rest line col off (some s) =
-      (match scan1 ep rest line col off with | some e => OffRes.ok s e | none => OffRes.err) := by
-  induction h : rest.length using Nat.strongRecOn generalizing rest with
-  | ind n ih =>
-    intro line col off sp s
-    cases rest with
-    | nil => rw [scan, scan1]; simp only [finish]; split <;> simp_all
-    | cons a tl =>
-      rw [scan, scan1]
-      by_cases h1 : line = ep.line ∧ col = ep.ch
-      · simp [h1]
-      · by_cases h2 : (line = ep.line ∧ col > ep.ch) ∨ line > ep.line
-        · simp [h1, h2]
-        · have hlt : (tl.drop (stepLen a - 1)).length < n := by
-            subst h; simp [List.length_drop]; omega
-          by_cases h3 : a = 10
-          · simp only [h1, h2, h3, if_false, if_true]
-            exact ih _ (by subst h3; exact hlt) _ rfl _ _ _ _ _
-          · simp only [h1, h2, h3, if_false]
-            exact ih _ hlt _ rfl _ _ _ _ _
-
-/-- how the spec's remaining `(l, c)` changes when one character that is not the target is consumed -/
-def adv (x : Ch) (l c : Nat) : Nat × Nat :=
-  match l with
-  | 0 => (0, c - x.units)
-  | l + 1 => if x.isEol then (l, c) else (l + 1, c)
-
-def nline (x : Ch) (line : Nat) : Nat := if x.isEol then line + 1 else line
-def ncol (x : Ch) (col : Nat) : Nat := if x.isEol then 0 else col + 1
-
-theorem adv_facts (x : Ch) (xs : List Ch) (l c : Nat) (hb : bad (x :: xs) l c = false)
-    (hh : ¬ (l = 0 ∧ c = 0)) :
-    bad xs (adv x l c).1 (adv x l c).2 = false ∧ (l = 0 → x.isEol = false ∧ x.units = 1 ∧ 1 ≤ c) ∧
-    (0 < l → x ≠ .cr) := by
-  cases l with
-  | zero =>
-    have hc : c ≠ 0 := by simpa using hh
-    by_cases heol : x.isEol = true
-    · simp [bad, heol, hc] at hb
-    · simp [bad, heol, hc] at hb
-      obtain ⟨h1, h2, h3⟩ := hb
-      have hu : x.units = 1 := by cases x <;> simp_all [Ch.units]
-      refine ⟨by simpa [adv, hu] using h3, by simp [heol, hu]; omega, by simp⟩
-  | succ l =>
-    by_cases hcr : x = .cr
-    · simp [bad, hcr] at hb
-    · by_cases heol : x.isEol = true
-      · simp [bad, hcr, heol] at hb; simp [adv, heol, hb, hcr]
-      · simp [bad, hcr, heol] at hb; simp [adv, heol, hb, hcr]
-
-theorem adv_spec (x : Ch) (xs : List Ch) (l c off : Nat) (hb : bad (x :: xs) l c = false)
-    (hh : ¬ (l = 0 ∧ c = 0)) :
-    specOffsetCh (x :: xs) l c off = specOffsetCh xs (adv x l c).1 (adv x l c).2 (off + x.bytes.length) := by
-  obtain ⟨_, h0, _⟩ := adv_facts x xs l c hb hh
-  cases l with
-  | zero =>
-    obtain ⟨h1, h2, h3⟩ := h0 rfl
-    simp [specOffsetCh, adv, h1, h2, show c ≠ 0 by omega, show ¬ c < 1 by omega]
-  | succ l =>
-    by_cases heol : x.isEol = true <;> simp [specOffsetCh, adv, heol]
-
-theorem adv_target (x : Ch) (xs : List Ch) (l c line col : Nat) (hb : bad (x :: xs) l c = false)
-    (hh : ¬ (l = 0 ∧ c = 0)) :
-    target line col l c = target (nline x line) (ncol x col) (adv x l c).1 (adv x l c).2 := by
-  obtain ⟨_, h0, _⟩ := adv_facts x xs l c hb hh
-  cases l with
-  | zero =>
-    obtain ⟨h1, h2, h3⟩ := h0 rfl
-    simp [target, adv, nline, ncol, h1, h2]; omega
-  | succ l =>
-    by_cases heol : x.isEol = true
-    · simp only [target, adv, nline, ncol, heol, if_true, Pos.mk.injEq]
-      constructor
-      · omega
-      · by_cases hl : l = 0 <;> simp [hl]
-    · simp [target, adv, nline, ncol, heol]
-
-/-- lexicographic order on the spec's remaining distance -/
-def le2 (l1 c1 l2 c2 : Nat) : Prop := l1 < l2 ∨ (l1 = l2 ∧ c1 ≤ c2)
-
-theorem adv_le (x : Ch) (xs : List Ch) (l1 c1 l2 c2 : Nat)
-    (hb1 : bad (x :: xs) l1 c1 = false) (hh1 : ¬ (l1 = 0 ∧ c1 = 0))
-    (hb2 : bad (x :: xs) l2 c2 = false) (hle : le2 l1 c1 l2 c2) :
-    ¬ (l2 = 0 ∧ c2 = 0) ∧ le2 (adv x l1 c1).1 (adv x l1 c1).2 (adv x l2 c2).1 (adv x l2 c2).2 := by
-  have hh2 : ¬ (l2 = 0 ∧ c2 = 0) := by
-    unfold le2 at hle; omega
-  refine ⟨hh2, ?_⟩
-  obtain ⟨_, f1, _⟩ := adv_facts x xs l1 c1 hb1 hh1
-  obtain ⟨_, f2, _⟩ := adv_facts x xs l2 c2 hb2 hh2
-  unfold le2 at *
-  cases l1 with
-  | zero =>
-    obtain ⟨e1, u1, _⟩ := f1 rfl
-    cases l2 with
-    | zero => simp [adv, u1]; omega
-    | succ l2 => simp [adv, e1]
-  | succ l1 =>
-    cases l2 with
-    | zero => omega
-    | succ l2 =>
-      by_cases heol : x.isEol = true
-      · simp [adv, heol]; omega
-      · simp [adv, heol]; omega
-
-/-- the model steps over the bytes of one well-formed character that lies strictly before `sp` -/
-theorem scan_adv (sp ep : Pos) (x : Ch) (hwf : x.wf) (rest : Bytes) (line col off : Nat)
-    (hcr : x ≠ .cr)
-    (hahead : sp.line > line ∨ (sp.line = line ∧ sp.ch > col ∧ x.isEol = false)) :
-    scan sp ep (x.bytes ++ rest) line col off none =
-      scan sp ep rest (nline x line) (ncol x col) (off + x.bytes.length) none := by
-  have hne : ¬ (line = sp.line ∧ col = sp.ch) := by omega
-  have hnb : ¬ ((line = sp.line ∧ col > sp.ch) ∨ line > sp.line) := by omega
-  have step : ∀ (a : UInt8) (tl : Bytes), a ≠ 10 →
-      scan sp ep (a :: tl) line col off none =
-        scan sp ep (tl.drop (stepLen a - 1)) line (col + 1) (off + stepLen a) none := by
-    intro a tl h10; rw [scan]; simp [hne, hnb, h10]
-  cases x with
-  | ascii b =>
-    obtain ⟨h1, h2, _⟩ := hwf
-    simp only [Ch.bytes, List.cons_append, List.nil_append]
-    rw [step b _ h2, stepLen_ascii b h1]; simp [nline, ncol, Ch.isEol]
-  | two a b =>
-    obtain ⟨h1, h2⟩ := hwf
-    simp only [Ch.bytes, List.cons_append, List.nil_append]
-    rw [step a _ (ne10_of_ge a (by simp only [UInt8.le_iff_toNat_le] at *; simp at *; omega)), stepLen_two a h1 h2]
-    simp [nline, ncol, Ch.isEol]
-  | three a b d =>
-    obtain ⟨h1, h2⟩ := hwf
-    simp only [Ch.bytes, List.cons_append, List.nil_append]
-    rw [step a _ (ne10_of_ge a (by simp only [UInt8.le_iff_toNat_le] at *; simp at *; omega)), stepLen_three a h1 h2]
-    simp [nline, ncol, Ch.isEol]
-  | four a b d e =>
-    obtain ⟨h1, h2⟩ := hwf
-    simp only [Ch.bytes, List.cons_append, List.nil_append]
-    rw [step a _ (ne10_of_ge a (by simp only [UInt8.le_iff_toNat_le] at *; simp at *; omega)), stepLen_four a h1 h2]
-    simp [nline, ncol, Ch.isEol]
-  | lf =>
-    simp only [Ch.bytes, List.cons_append, List.nil_append]
-    rw [scan]; simp [hne, hnb, nline, ncol, Ch.isEol, show stepLen 10 = 1 by decide]
-  | crlf =>
-    have hl : sp.line > line := by simpa [Ch.isEol] using hahead
-    simp only [Ch.bytes, List.cons_append, List.nil_append]
-    rw [step 13 _ (by decide), show stepLen 13 = 1 by decide]
-    simp only [List.drop_zero, Nat.sub_self]
-    rw [scan]
-    have hne' : ¬ (line = sp.line ∧ col + 1 = sp.ch) := by omega
-    have hnb' : ¬ ((line = sp.line ∧ col + 1 > sp.ch) ∨ line > sp.line) := by omega
-    simp [hne', hnb', nline, ncol, Ch.isEol, show stepLen 10 = 1 by decide]
-  | cr => exact absurd rfl hcr
-
-theorem spec_hit (cs : List Ch) (off : Nat) : specOffsetCh cs 0 0 off = some off := by
-  cases cs with
-  | nil => simp [specOffsetCh]
-  | cons x xs => by_cases h : x.isEol = true <;> simp [specOffsetCh, h]
-
-theorem scan_spec (cs : List Ch) (hwf : ∀ x ∈ cs, x.wf) :
-    ∀ (l1 c1 l2 c2 line col off : Nat), bad cs l1 c1 = false → bad cs l2 c2 = false →
-      le2 l1 c1 l2 c2 →
-      scan (target line col l1 c1) (target line col l2 c2) (encode cs) line col off none =
-        (match specOffsetCh cs l1 c1 off, specOffsetCh cs l2 c2 off with
-         | some s, some e => OffRes.ok s e
-         | _, _ => OffRes.err) := by
-  induction cs with
-  | nil =>
-    intro l1 c1 l2 c2 line col off hb1 hb2 _
-    simp [bad] at hb1 hb2
-    obtain ⟨rfl, rfl⟩ := hb1
-    obtain ⟨rfl, rfl⟩ := hb2
-    simp [encode, specOffsetCh, target, scan, finish]
-  | cons x xs ih =>
-    have hwfx : x.wf := hwf x (by simp)
-    have ih := ih (fun y hy => hwf y (by simp [hy]))
-    intro l1 c1 l2 c2 line col off hb1 hb2 hle
-    by_cases hh : l1 = 0 ∧ c1 = 0
-    · obtain ⟨rfl, rfl⟩ := hh
-      rw [scan_switch _ _ _ _ _ _ (by simp [target]), scan_found,
-        scan1_spec (x :: xs) hwf l2 c2 line col off hb2, spec_hit]
-      cases specOffsetCh (x :: xs) l2 c2 off <;> rfl
-    · obtain ⟨hh2, hle'⟩ := adv_le x xs l1 c1 l2 c2 hb1 hh hb2 hle
-      obtain ⟨hb1', f0, fcr⟩ := adv_facts x xs l1 c1 hb1 hh
-      obtain ⟨hb2', _, _⟩ := adv_facts x xs l2 c2 hb2 hh2
-      rw [encode_cons, scan_adv _ _ x hwfx _ _ _ _ ?hcr ?hahead,
-        adv_target x xs l1 c1 line col hb1 hh, adv_target x xs l2 c2 line col hb2 hh2,
-        ih _ _ _ _ _ _ _ hb1' hb2' hle', adv_spec x xs l1 c1 off hb1 hh, adv_spec x xs l2 c2 off hb2 hh2]
-      case hcr =>
-        intro hx
-        cases l1 with
-        | zero => have := (f0 rfl).1; simp [hx, Ch.isEol] at this
-        | succ l1 => exact fcr (by omega) hx
-      case hahead =>
-        cases l1 with
-        | zero =>
-          obtain ⟨e1, _, h3⟩ := f0 rfl
-          right; simp [target, e1]; omega
-        | succ l1 => left; simp [target]
-
-end LuaHelper.TextProofs
-
-namespace LuaHelper.TextProofs
-open LuaHelper.Text LuaHelper.Lsp LuaHelper.TextFindings
-
 /-! ### round trip decode ∘ encode, bounds -/
 
 /-- no `cr` directly followed by `lf` (that byte sequence *is* `crlf`) -/
@@ -554,5 +182,278 @@ theorem spec_bounds (cs : List Ch) : ∀ (l c off e : Nat), specOffsetCh cs l c 
     | succ l =>
       simp only [specOffsetCh] at h
       split at h <;> (have := ih _ _ _ _ h; omega)
+
+/-! ### the position mapping against the LSP specification -/
+
+/-- continuation bytes of a multi-byte character are ≥ 0x80 (so never LF or CR) -/
+def Ch.cont : Ch → Prop
+  | .two _ b => 0x80 ≤ b
+  | .three _ b c => 0x80 ≤ b ∧ 0x80 ≤ c
+  | .four _ b c d => 0x80 ≤ b ∧ 0x80 ≤ c ∧ 0x80 ≤ d
+  | _ => True
+
+theorem ne_of_ge80 (b : UInt8) (h : 0x80 ≤ b) : b ≠ 10 ∧ b ≠ 13 := by
+  constructor <;> (intro e; subst e; simp [UInt8.le_iff_toNat_le] at h)
+
+theorem ne13_of_ge (a : UInt8) (h1 : 0xC0 ≤ a) : a ≠ 13 := by
+  intro h; subst h; simp [UInt8.le_iff_toNat_le] at h1
+
+theorem skip_zero (r : Bytes) (off : Nat) : skipLines r 0 off = some (r, off) := by
+  rw [skipLines]
+
+theorem skip_nil (l off : Nat) : skipLines [] (l + 1) off = none := by
+  rw [skipLines]
+
+theorem skip_other (b : UInt8) (r : Bytes) (l off : Nat) (h10 : b ≠ 10) (h13 : b ≠ 13) :
+    skipLines (b :: r) (l + 1) off = skipLines r (l + 1) (off + 1) := by
+  rw [skipLines]; simp [h10, h13]
+
+theorem skip_lf (r : Bytes) (l off : Nat) : skipLines (10 :: r) (l + 1) off = skipLines r l (off + 1) := by
+  rw [skipLines]; simp
+
+theorem skip_crlf (r : Bytes) (l off : Nat) : skipLines (13 :: 10 :: r) (l + 1) off = skipLines r l (off + 2) := by
+  rw [skipLines]; simp
+
+theorem skip_cr (r : Bytes) (l off : Nat) (h : r.head? ≠ some 10) :
+    skipLines (13 :: r) (l + 1) off = skipLines r l (off + 1) := by
+  rw [skipLines]; simp [h]
+
+/-- the line skipping on spec characters -/
+def skipCh : List Ch → Nat → Nat → Option (List Ch × Nat)
+  | cs, 0, off => some (cs, off)
+  | [], _ + 1, _ => none
+  | x :: xs, l + 1, off =>
+    if x.isEol then skipCh xs l (off + x.bytes.length) else skipCh xs (l + 1) (off + x.bytes.length)
+
+theorem skipCh_zero (cs : List Ch) (off : Nat) : skipCh cs 0 off = some (cs, off) := by
+  cases cs <;> rfl
+
+theorem head_encode_ne_lf (xs : List Ch) (hwf : ∀ x ∈ xs, x.wf) (h : ∀ y r, xs = y :: r → y ≠ .lf) :
+    (encode xs).head? ≠ some 10 := by
+  cases xs with
+  | nil => simp [encode]
+  | cons y r =>
+    obtain ⟨a, tl, hb, ha⟩ := head_ne_lf y (hwf y (by simp)) (h y r rfl)
+    rw [encode_cons, hb]
+    simpa using ha
+
+theorem skip_encode : ∀ (cs : List Ch), (∀ x ∈ cs, x.wf) → (∀ x ∈ cs, Ch.cont x) → canon cs →
+    ∀ (l off : Nat), skipLines (encode cs) l off = (skipCh cs l off).map (fun ro => (encode ro.1, ro.2))
+  | cs, _, _, _, 0, off => by rw [skip_zero, skipCh_zero]; rfl
+  | [], _, _, _, l + 1, off => by simp [encode, skip_nil, skipCh]
+  | x :: xs, hwf, hco, hca, l + 1, off => by
+    have hwf' : ∀ y ∈ xs, y.wf := fun y hy => hwf y (by simp [hy])
+    have hco' : ∀ y ∈ xs, Ch.cont y := fun y hy => hco y (by simp [hy])
+    have hca' := canon_tail hca
+    have ih := skip_encode xs hwf' hco' hca'
+    have hx := hwf x (by simp)
+    have hc := hco x (by simp)
+    rw [encode_cons]
+    cases x with
+    | ascii b =>
+      simp only [Ch.bytes, List.cons_append, List.nil_append, skipCh, Ch.isEol, Bool.false_eq_true, if_false, List.length_singleton]
+      rw [skip_other b _ _ _ hx.2.1 hx.2.2, ih]
+    | two a b =>
+      have ha : 0xC0 ≤ a := hx.1
+      have hb := ne_of_ge80 b hc
+      simp only [Ch.bytes, List.cons_append, List.nil_append, skipCh, Ch.isEol, Bool.false_eq_true, if_false, List.length_cons, List.length_nil]
+      rw [skip_other a _ _ _ (ne10_of_ge a ha) (ne13_of_ge a ha), skip_other b _ _ _ hb.1 hb.2, ih]
+    | three a b c =>
+      have ha : 0xC0 ≤ a := by
+        have := hx.1; simp only [UInt8.le_iff_toNat_le] at *; simp at *; omega
+      have hb := ne_of_ge80 b hc.1
+      have hcc := ne_of_ge80 c hc.2
+      simp only [Ch.bytes, List.cons_append, List.nil_append, skipCh, Ch.isEol, Bool.false_eq_true, if_false, List.length_cons, List.length_nil]
+      rw [skip_other a _ _ _ (ne10_of_ge a ha) (ne13_of_ge a ha), skip_other b _ _ _ hb.1 hb.2,
+        skip_other c _ _ _ hcc.1 hcc.2, ih]
+    | four a b c d =>
+      have ha : 0xC0 ≤ a := by
+        have := hx.1; simp only [UInt8.le_iff_toNat_le] at *; simp at *; omega
+      have hb := ne_of_ge80 b hc.1
+      have hcc := ne_of_ge80 c hc.2.1
+      have hd := ne_of_ge80 d hc.2.2
+      simp only [Ch.bytes, List.cons_append, List.nil_append, skipCh, Ch.isEol, Bool.false_eq_true, if_false, List.length_cons, List.length_nil]
+      rw [skip_other a _ _ _ (ne10_of_ge a ha) (ne13_of_ge a ha), skip_other b _ _ _ hb.1 hb.2,
+        skip_other c _ _ _ hcc.1 hcc.2, skip_other d _ _ _ hd.1 hd.2, ih]
+    | lf =>
+      simp only [Ch.bytes, List.cons_append, List.nil_append, skipCh, Ch.isEol, if_true, List.length_singleton]
+      rw [skip_lf, ih]
+    | crlf =>
+      simp only [Ch.bytes, List.cons_append, List.nil_append, skipCh, Ch.isEol, if_true, List.length_cons, List.length_nil]
+      rw [skip_crlf, ih]
+    | cr =>
+      simp only [Ch.bytes, List.cons_append, List.nil_append, skipCh, Ch.isEol, if_true, List.length_singleton]
+      have hne : (encode xs).head? ≠ some 10 := by
+        apply head_encode_ne_lf xs hwf'
+        intro y r hyr hy
+        subst hyr; subst hy
+        exact hca.1 ⟨rfl, rfl⟩
+      rw [skip_cr _ _ _ hne, ih]
+
+/-- the spec skips whole lines the same way -/
+theorem spec_skip : ∀ (cs : List Ch) (l c off : Nat),
+    specOffsetCh cs l c off = (match skipCh cs l off with
+      | none => none
+      | some (r, o) => specOffsetCh r 0 c o)
+  | cs, 0, c, off => by rw [skipCh_zero]
+  | [], l + 1, c, off => by simp [specOffsetCh, skipCh]
+  | x :: xs, l + 1, c, off => by
+    simp only [specOffsetCh, skipCh]
+    split <;> exact spec_skip xs _ c _
+
+theorem skipCh_suffix : ∀ (cs : List Ch) (l off : Nat) (r : List Ch) (o : Nat), skipCh cs l off = some (r, o) →
+    (∀ x ∈ r, x ∈ cs) ∧ o + (encode r).length = off + (encode cs).length
+  | cs, 0, off, r, o, h => by
+    rw [skipCh_zero] at h
+    simp only [Option.some.injEq, Prod.mk.injEq] at h
+    obtain ⟨rfl, rfl⟩ := h
+    exact ⟨fun x hx => hx, rfl⟩
+  | [], l + 1, off, r, o, h => by simp [skipCh] at h
+  | x :: xs, l + 1, off, r, o, h => by
+    simp only [skipCh] at h
+    rw [encode_cons, List.length_append]
+    split at h
+    · obtain ⟨h1, h2⟩ := skipCh_suffix xs l _ r o h
+      exact ⟨fun y hy => by simp [h1 y hy], by omega⟩
+    · obtain ⟨h1, h2⟩ := skipCh_suffix xs (l + 1) _ r o h
+      exact ⟨fun y hy => by simp [h1 y hy], by omega⟩
+
+theorem unitsOf_ascii (b : UInt8) (h : b < 0x80) : unitsOf b = 1 := by
+  unfold unitsOf
+  have : ¬ b > 127 := by
+    simp only [UInt8.lt_iff_toNat_lt, gt_iff_lt] at *; simp at *; omega
+  simp [this]
+
+theorem unitsOf_two (a : UInt8) (h1 : 0xC0 ≤ a) (h2 : a < 0xE0) : unitsOf a = 1 := by
+  unfold unitsOf leadOnes
+  simp only [UInt8.lt_iff_toNat_lt, UInt8.le_iff_toNat_le, gt_iff_lt] at *
+  simp at *
+  repeat (first | omega | split)
+
+theorem unitsOf_three (a : UInt8) (h1 : 0xE0 ≤ a) (h2 : a < 0xF0) : unitsOf a = 1 := by
+  unfold unitsOf leadOnes
+  simp only [UInt8.lt_iff_toNat_lt, UInt8.le_iff_toNat_le, gt_iff_lt] at *
+  simp at *
+  repeat (first | omega | split)
+
+theorem unitsOf_four (a : UInt8) (h1 : 0xF0 ≤ a) (h2 : a < 0xF8) : unitsOf a = 2 := by
+  unfold unitsOf leadOnes
+  simp only [UInt8.lt_iff_toNat_lt, UInt8.le_iff_toNat_le, gt_iff_lt] at *
+  simp at *
+  repeat (first | omega | split)
+
+theorem walk_nil (c off : Nat) : walk [] c off = off := by rw [walk]
+
+theorem walk_zero (r : Bytes) (off : Nat) : walk r 0 off = off := by
+  cases r with
+  | nil => rw [walk]
+  | cons a t => rw [walk]
+
+theorem walk_eol (a : UInt8) (t : Bytes) (rem off : Nat) (h : a = 10 ∨ a = 13) : walk (a :: t) (rem + 1) off = off := by
+  rw [walk]; simp [h]
+
+theorem walk_step (a : UInt8) (t : Bytes) (rem off : Nat) (h : ¬ (a = 10 ∨ a = 13)) (hu : ¬ rem + 1 < unitsOf a) :
+    walk (a :: t) (rem + 1) off = walk (t.drop (stepLen a - 1)) (rem + 1 - unitsOf a) (off + stepLen a) := by
+  rw [walk]; simp [h, hu]
+
+theorem walk_short (a : UInt8) (t : Bytes) (rem off : Nat) (h : ¬ (a = 10 ∨ a = 13)) (hu : rem + 1 < unitsOf a) :
+    walk (a :: t) (rem + 1) off = off := by
+  rw [walk]; simp [h, hu]
+
+/-- along one line the walk is the spec: it stops at the line end (clamp), before a character that needs more
+    units than are left, and otherwise after exactly `c` UTF-16 units -/
+theorem walk_spec : ∀ (cs : List Ch), (∀ x ∈ cs, x.wf) → ∀ (c off : Nat),
+    specOffsetCh cs 0 c off = some (walk (encode cs) c off) ∧ walk (encode cs) c off ≤ off + (encode cs).length
+  | [], _, c, off => by simp [specOffsetCh, encode, walk_nil]
+  | x :: xs, hwf, 0, off => by
+    rw [walk_zero]
+    refine ⟨?_, by omega⟩
+    simp only [specOffsetCh]
+    split <;> simp
+  | x :: xs, hwf, rem + 1, off => by
+    have hwf' : ∀ y ∈ xs, y.wf := fun y hy => hwf y (by simp [hy])
+    have hx := hwf x (by simp)
+    rw [encode_cons, List.length_append]
+    cases x with
+    | lf => simp [Ch.bytes, specOffsetCh, Ch.isEol, walk_eol]
+    | crlf => simp [Ch.bytes, specOffsetCh, Ch.isEol, walk_eol]
+    | cr => simp [Ch.bytes, specOffsetCh, Ch.isEol, walk_eol]
+    | ascii b =>
+      have hne : ¬ (b = 10 ∨ b = 13) := by intro h; rcases h with h | h; exact hx.2.1 h; exact hx.2.2 h
+      have hu := unitsOf_ascii b hx.1
+      have hs := stepLen_ascii b hx.1
+      obtain ⟨i1, i2⟩ := walk_spec xs hwf' rem (off + 1)
+      simp only [Ch.bytes, List.cons_append, List.nil_append, List.length_singleton]
+      rw [walk_step b _ _ _ hne (by omega), hu, hs]
+      simp only [specOffsetCh, Ch.isEol, Ch.units, Bool.false_eq_true, if_false, Nat.add_one_ne_zero, Nat.add_sub_cancel,
+        Nat.sub_self, List.drop_zero, Ch.bytes, List.length_singleton]
+      refine ⟨?_, by omega⟩
+      have : ¬ (rem + 1 < 1) := by omega
+      simp only [this, if_false]
+      exact i1
+    | two a b =>
+      have h1 : 0xC0 ≤ a := hx.1
+      have hne : ¬ (a = 10 ∨ a = 13) := by
+        intro h; rcases h with h | h; exact ne10_of_ge a h1 h; exact ne13_of_ge a h1 h
+      have hu := unitsOf_two a hx.1 hx.2
+      have hs := stepLen_two a hx.1 hx.2
+      obtain ⟨i1, i2⟩ := walk_spec xs hwf' rem (off + 2)
+      simp only [Ch.bytes, List.cons_append, List.nil_append, List.length_cons, List.length_nil]
+      rw [walk_step a _ _ _ hne (by omega), hu, hs]
+      simp only [specOffsetCh, Ch.isEol, Ch.units, Bool.false_eq_true, if_false, Nat.add_one_ne_zero, Nat.add_sub_cancel,
+        List.drop_succ_cons, List.drop_zero, Ch.bytes, List.length_cons, List.length_nil]
+      refine ⟨?_, by omega⟩
+      have : ¬ (rem + 1 < 1) := by omega
+      simp only [this, if_false]
+      exact i1
+    | three a b c =>
+      have h1 : 0xC0 ≤ a := by
+        have := hx.1; simp only [UInt8.le_iff_toNat_le] at *; simp at *; omega
+      have hne : ¬ (a = 10 ∨ a = 13) := by
+        intro h; rcases h with h | h; exact ne10_of_ge a h1 h; exact ne13_of_ge a h1 h
+      have hu := unitsOf_three a hx.1 hx.2
+      have hs := stepLen_three a hx.1 hx.2
+      obtain ⟨i1, i2⟩ := walk_spec xs hwf' rem (off + 3)
+      simp only [Ch.bytes, List.cons_append, List.nil_append, List.length_cons, List.length_nil]
+      rw [walk_step a _ _ _ hne (by omega), hu, hs]
+      simp only [specOffsetCh, Ch.isEol, Ch.units, Bool.false_eq_true, if_false, Nat.add_one_ne_zero, Nat.add_sub_cancel,
+        List.drop_succ_cons, List.drop_zero, Ch.bytes, List.length_cons, List.length_nil]
+      refine ⟨?_, by omega⟩
+      have : ¬ (rem + 1 < 1) := by omega
+      simp only [this, if_false]
+      exact i1
+    | four a b c d =>
+      have h1 : 0xC0 ≤ a := by
+        have := hx.1; simp only [UInt8.le_iff_toNat_le] at *; simp at *; omega
+      have hne : ¬ (a = 10 ∨ a = 13) := by
+        intro h; rcases h with h | h; exact ne10_of_ge a h1 h; exact ne13_of_ge a h1 h
+      have hu := unitsOf_four a hx.1 hx.2
+      have hs := stepLen_four a hx.1 hx.2
+      simp only [Ch.bytes, List.cons_append, List.nil_append, List.length_cons, List.length_nil]
+      by_cases hr : rem + 1 < 2
+      · rw [walk_short a _ _ _ hne (by omega)]
+        refine ⟨?_, by omega⟩
+        simp [specOffsetCh, Ch.isEol, Ch.units, hr]
+      · obtain ⟨i1, i2⟩ := walk_spec xs hwf' (rem + 1 - 2) (off + 4)
+        rw [walk_step a _ _ _ hne (by omega), hu, hs]
+        simp only [specOffsetCh, Ch.isEol, Ch.units, Bool.false_eq_true, if_false, Nat.add_one_ne_zero,
+          List.drop_succ_cons, List.drop_zero, Ch.bytes, List.length_cons, List.length_nil, hr]
+        refine ⟨?_, by omega⟩
+        exact i1
+
+/-- **position → offset is the LSP mapping**, for every well-formed document and EVERY position -/
+theorem position_spec (cs : List Ch) (hwf : ∀ x ∈ cs, x.wf) (hco : ∀ x ∈ cs, Ch.cont x) (hca : canon cs) (p : Pos) :
+    offsetForPosition (encode cs) p = specOffsetCh cs p.line p.ch 0 := by
+  unfold offsetForPosition
+  rw [skip_encode cs hwf hco hca, spec_skip]
+  cases h : skipCh cs p.line 0 with
+  | none => simp
+  | some ro =>
+    obtain ⟨r, o⟩ := ro
+    obtain ⟨hsub, hlen⟩ := skipCh_suffix cs p.line 0 r o h
+    obtain ⟨w1, w2⟩ := walk_spec r (fun x hx => hwf x (hsub x hx)) p.ch o
+    simp only [Option.map_some, w1]
+    congr 1
+    omega
 
 end LuaHelper.TextProofs
